@@ -20,6 +20,14 @@ Rewrite rules (the accepted differences; nothing else is tolerated):
   R8  _AsyncBytesIO(s) == s ; w._bytesio == w ; isinstance(w, _AsyncBytesIO) == isinstance(w, BytesIO) (the wrapper only forwards read/write: checked below)
   R9  x = a if c else b  ==  if c: x = a else: x = b
   R10 class names inside exception-message string literals follow R2 (only exception *types* are compared)
+  R11 local variables are compared up to consistent renaming (alpha-equivalence; parameters keep their names: they are API)
+  R12 calls on _LOGGER / warnings.warn as statements are dropped (A-LOG)
+
+When the normal forms still differ, identity of code is not available as an argument.  The pair is then decided by the SHARED CONTRACT
+(pyvc.check.c16_second_tier): every obligation of the pair's contract, for every property it carries, is generated for both twins and
+must discharge -- both twins then equal the same specification on everything the contract pins down (peer image, result, exception
+class, state).  A refuted obligation is the C16 violation (a correction made to one twin only fails it for the other); a pair that
+differs and has no contract is UNDECIDED, never a violation by itself.
 """
 import ast
 import copy
@@ -106,10 +114,70 @@ def wrapper_calls(tree):
     return W().visit(tree)
 
 
+class DropLogging(ast.NodeTransformer):                                          # R12
+    def visit_Expr(self, node):
+        v = node.value
+        if isinstance(v, ast.Call) and isinstance(v.func, ast.Attribute) and isinstance(v.func.value, ast.Name) \
+                and (v.func.value.id == '_LOGGER' or (v.func.value.id == 'warnings' and v.func.attr == 'warn')):
+            return None
+        return node
+
+
+def alpha_rename(fn):
+    """R11: locals (names bound in the function that are not parameters, not declared global/nonlocal) -> _v<k> in order of first
+    occurrence in a fixed traversal.  Nested function definitions / lambdas / comprehensions share the numbering (conservative:
+    a capture-changing rename would change the dump, never hide a difference)."""
+    params = {a.arg for a in fn.args.posonlyargs + fn.args.args + fn.args.kwonlyargs}
+    if fn.args.vararg:
+        params.add(fn.args.vararg.arg)
+    if fn.args.kwarg:
+        params.add(fn.args.kwarg.arg)
+    declared = set()
+    bound = set()
+    for n in ast.walk(fn):
+        if isinstance(n, (ast.Global, ast.Nonlocal)):
+            declared.update(n.names)
+        elif isinstance(n, ast.Name) and isinstance(n.ctx, (ast.Store, ast.Del)):
+            bound.add(n.id)
+        elif isinstance(n, ast.ExceptHandler) and n.name:
+            bound.add(n.name)
+        elif isinstance(n, (ast.FunctionDef, ast.AsyncFunctionDef, ast.Lambda)) and n is not fn:
+            a = n.args
+            for x in a.posonlyargs + a.args + a.kwonlyargs + ([a.vararg] if a.vararg else []) + ([a.kwarg] if a.kwarg else []):
+                bound.add(x.arg)
+    locals_ = bound - params - declared
+    order = {}
+
+    class R(ast.NodeTransformer):
+        def visit_Name(self, node):
+            if node.id in locals_:
+                order.setdefault(node.id, '_v%d' % len(order))
+                return ast.copy_location(ast.Name(id=order[node.id], ctx=node.ctx), node)
+            return node
+
+        def visit_ExceptHandler(self, node):
+            if node.name and node.name in locals_:
+                order.setdefault(node.name, '_v%d' % len(order))
+                node.name = order[node.name]
+            self.generic_visit(node)
+            return node
+
+        def visit_arg(self, node):
+            if node.arg in locals_:
+                order.setdefault(node.arg, '_v%d' % len(order))
+                node.arg = order[node.arg]
+            return node
+    body = [R().visit(st) for st in fn.body]
+    fn.body = body
+    return fn
+
+
 def normal_form(fn):
     fn = copy.deepcopy(fn)
     fn = wrapper_calls(fn)
     fn = Normalise().visit(fn)
+    fn = DropLogging().visit(fn)
+    fn = alpha_rename(fn)
     fn.decorator_list = [d for d in fn.decorator_list if not (isinstance(d, ast.Name) and d.id in ('contextmanager', 'asynccontextmanager'))]
     fn.returns = None
     ast.fix_missing_locations(fn)
